@@ -295,6 +295,19 @@ func init() {
 }
 
 func init() {
+	// a destructuring define over a name that a global statement declared in the same scope stores to the global (the
+	// name is not new there) and leaves every local alone; in a nested scope the same statement declares a new local
+	c02probes = append(c02probes,
+		"global x\na := 100\nx, y := [1, 2]\nreturn [a, x, y, globals().x]",
+		"global (x, z)\na := 100\nb := 200\nz, y, x := [1, 2, 3]\nL := [a, b, x, y, z]\nx, w := [9, 8]\nreturn [L, a, b, x, y, z, w, globals().x, globals().z]",
+		"global x\na := 100\nif true {\n  x, y := [1, 2]\n  a += x + y\n}\nreturn [a, x, globals().x]",
+		"global x\na := 100\nf := func() {\n  b := 5\n  x, y := [1, 2]\n  return [b, x, y]\n}\nreturn [f(), a, x]",
+		"global x\na := 100\nif x, y := [1, 2]; y == 2 {\n  a += x\n}\nreturn [a, x]",
+		"global x\nx = 5\na := 100\nf := func() { return x }\nx, y := [x + 1, a]\nreturn [a, x, y, f()]",
+	)
+}
+
+func init() {
 	// calls in tail position between DIFFERENT instances of one function literal (same code, different captured
 	// variables): chains of handlers, continuation passing, returned and discarded forms
 	c02probes = append(c02probes,
